@@ -48,6 +48,7 @@ Tiny2 == S(<<E(<<T(1, 2, 1)>>, 0)>>, <<>>, 2)
 LiveFaultScenarios == {Tiny2}
 FaultSimScenarios == {Seq2, Named2, Tiny2, Over2, Three, OverPlain1, OverPlain2, Timed2}
 FaultScenarios == {Seq2, Named2, OverPlain1}
+C07QuickScenarios == {Seq2, Named2, Any2, Over2, OverPlain1, OverPlain2, Timed2}
 C07Scenarios == {Seq2, Named2, Over2, OverPlain1}
 ThoroughScenarios == QuickScenarios \cup {ThreeB, W3, W3Any}
 ====
